@@ -652,7 +652,7 @@ func modelLine(c Case, cfg string) string {
 	return sb.String()
 }
 
-var modelCfg = "111111"
+var modelCfg = "1111111"
 
 func runCase(c Case) {
 	// archive/tar cannot encode a regular entry whose name ends in a slash (replay files may ask for it)
@@ -1595,7 +1595,7 @@ func main() {
 	run = common.Start("C11")
 	defer run.Finish()
 	run.Rule = "exhaustive: every 2-entry archive over 3 names x {reg,dir,symlink,hardlink} x 6 targets (thorough: + follow-up blobs, + all 3-entry archives over a sub-alphabet); random: cases = pre-populated tree + 1..3 pushes (named blob or tar+gzip to unpack, 1..6 entries over reg/dir/symlink/hardlink/other); names, titles and link targets from a grammar of segments, '..', '.', empty segments, absolute forms, earlier entry names and cwd decoys, plus perturbed attack templates; distinct = distinct case line; non-trivial = at least one push accepted"
-	if v := os.Getenv("C11_CFG"); len(v) == 6 {
+	if v := os.Getenv("C11_CFG"); len(v) == 7 {
 		modelCfg = v
 	}
 	var replayData []byte
@@ -1655,7 +1655,7 @@ func main() {
 	// coverage floors: a run in which a stream produced nothing must not pass silently
 	for _, k := range []string{"origin=exhaustive-2", "origin=random", "origin=tpl-deep-below-link", "origin=tpl-raw-target",
 		"origin=tpl-prefix-sibling", "origin=tpl-hardlink-nested-dotdot", "origin=tpl-manifest-layers", "origin=tpl-bad-content",
-		"origin=tpl-prepop-hardlink", "origin=tpl-revisit", "wd=missing", "wd=link", "wd=via", "push.B", "push.U", "push.M", "entry.r", "entry.d", "entry.h", "entry.s"} {
+		"origin=tpl-prepop-hardlink", "origin=tpl-revisit", "wd=missing", "wd=link", "wd=via", "failing-archive", "manifest-cases", "push.B", "push.U", "push.M", "entry.r", "entry.d", "entry.h", "entry.s"} {
 		if run.Dist[k] == 0 {
 			fmt.Fprintln(os.Stderr, "C11 harness: coverage floor not met:", k, "= 0")
 			run.Finish()
